@@ -56,7 +56,7 @@ def g1_nodes(draw, min_nodes=2, max_nodes=7, prefix="n", out_prefix="o", in_pref
         if p_const and nout == 1 and prob(draw, p_const):
             # legal output values that are falsy / None, and tuples of length 0, 1, 2 returned for ONE declared output (the value is
             # the tuple itself: nothing is unpacked)
-            spec["ret"] = draw(st.sampled_from([None, None, 0, False, "", [], ["solo"], [[]], ["two", "parts"], [None]]))
+            spec["ret"] = draw(st.sampled_from([None, None, 0, False, "", [], ["solo"], [[]], ["two", "parts"], [None], {"__lazy__": 7}]))
         if prob(draw, 0.15):
             # in the async flavour: a plain `def` that hands back a coroutine (an async function behind an ordinary decorator)
             spec["coro_def"] = True
